@@ -108,9 +108,35 @@ def run(ctx):
         broken.append(s[:i] + rng.choice(ALPHA) + s[i + rng.randint(0, 1):])
     corpus = [l.strip('\n') for l in open(vf.ROOT + '/corpus/C15.txt')] if vf.os.path.exists(vf.ROOT + '/corpus/C15.txt') else []
     corpus = [bytes.fromhex(c).decode() for c in corpus if c]
+    # formulas BUILT with the constructors (prefix notation understood by the driver only): `*` may stand anywhere, the DNF
+    # must still be equivalent to the tree under every assignment
+    def built(f):
+        if f[0] == 'star': return 'B'
+        if f[0] == 't': return f'T,{f[1].encode().hex()},{f[2].encode().hex()}'
+        return ('A,' if f[0] == 'and' else 'O,') + built(f[1]) + ',' + built(f[2])
+    bforms = [gen_formula(rng, rng.randint(0, 4)) for _ in range(1500 if ctx.quick() else 40000)]
+    bforms = [(f, '@' + built(f)) for f, _ in bforms]
     all_inputs = corpus + strings + [s for _, s in forms] + junk + broken
     lines = [vf.hexs(s) for s in all_inputs]
     impl, model = run_pair(lines)
+    bimpl, _ = vf.run_lines(vf.harness_bin('pdriver'), [vf.hexs(s) for _, s in bforms])
+    bbad = []
+    for (f, s), o in zip(bforms, bimpl):
+        why = None
+        if o == 'PANIC': why = 'panic'
+        elif not o.startswith('OK'): why = 'a tree built with the constructors has no disjunctive normal form: ' + o
+        else:
+            dnf = parse_out(o); at = sorted(atoms(f))
+            if {a for cl in dnf for a in cl} - set(at): why = 'attribute names not preserved'
+            elif len(at) <= 10:
+                for bits in itertools.product([False, True], repeat=len(at)):
+                    env = dict(zip(at, bits))
+                    if ev_dnf(dnf, env) != ev(f, env): why = 'truth table of the DNF differs from the tree'; break
+        if why: bbad.append((s, why, o))
+    ctx.evaluations += len(bforms)
+    ctx.ob('correspondence', f'to_dnf of {len(bforms)} policy trees built with the constructors (Broadcast anywhere): equivalent to the tree under every assignment, names preserved', len(bimpl) == len(bforms) and not bbad, str(bbad[:2])[:400])
+    if bbad:
+        vf.violation(ctx, f'policy built with the constructors: {bbad[0][1]}', {'input_utf8': bbad[0][0], 'input_hex': bbad[0][0].encode().hex(), 'impl': bbad[0][2], 'violations_total': len(bbad)})
     ctx.evaluations = len(lines); ctx.traces = len(lines)
     complete = len(impl) == len(lines) and len(model) == len(lines)
     ctx.ob('correspondence', 'both drivers answered every input', complete, f'impl {len(impl)} model {len(model)} of {len(lines)}')
